@@ -1191,6 +1191,14 @@ Definition guard (sc : scope) (st : state) (ps : pos) (tn : node) (o : op rtv) :
                 | _, _ => tn
                 end in
       (negb (checks_members tn) || forallb (fun kx => value_ok2 sc st (fst ps) wn (fst kx) (snd kx)) (op_keyed o)) &&
+      (* two placeholders of removed elements in a typed list are distinct objects (MissingValue(spec)): sorting / reversing
+         them counts as a change there, while the leaves of the model are equal *)
+      match o with
+      | LSort _ _ | LReverse =>
+          negb (checks_members tn &&
+                (2 <=? zlen (filter (fun kc => SymCoreDefs.is_missing (snd kc)) (nitems tn))))
+      | _ => true
+      end &&
       (* the copy of a typed list that holds placeholders of removed elements puts them back after validating the rest *)
       match o with
       | LCopy | LAdd _ => negb (checks_members tn && existsb (fun kc => SymCoreDefs.is_missing (snd kc)) (nitems tn))
